@@ -263,14 +263,9 @@ func splitNode[T any](n *node[T], pos int) (*node[T], error) {
 		return nil, err
 	}
 	ret := p.newChild(segs[0])
-	c := ret.newChild(segs[1])
-	c.handlers = n.handlers
-	c.methodIndex = n.methodIndex
-	c.children = n.children
-	c.indexes = n.indexes
-	for _, item := range c.children {
-		item.parent = c
-	}
+	n.segment = segs[1] // 保留 n 本身，OPTIONS 和 405 的处理方法引用的是该实例。
+	n.parent = ret
+	ret.children = append(ret.children, n)
 
 	// ret 和 c 的内容在 newChild 之后被修改，所以需要对其子元素重新排序。
 	ret.sort()
